@@ -221,7 +221,6 @@ func TestVP_C27_lifecycle(t *testing.T) {
 		}
 		m := &vpC27Model{}
 		epoch := sh.gns.EpochTimestamp()
-		type party struct{ signer, payee crypto.Key }
 		var keys []crypto.Key // every key that may be used as signer or payee
 		for i, in := range sh.gns.Nodes {
 			m.hist = append(m.hist, vpC27Rec{Ts: epoch, Signer: in.Signer.PublicSpendKey, Payee: in.Payee.PublicSpendKey,
